@@ -71,7 +71,16 @@ def run(ctx):
     ctx.cov["binding_selftest"].update(st)
     if not all(st.values()):
         raise vlib.NoVerdict("binding self-test failed: %s" % st)
-    ctx.cov["traces_validated_against_impl"] = n
+    # a cluster of three real servers: partition-level requests (normally issued by peers) sent to members that know
+    # the partition but do not host it - every node has to survive them, and to come back after kill -9
+    import clusfam
+    lines, nbad = clusfam.real_server_kinds(ctx, ["durable"], {"NodeDied", "RestartFailed"}, 1 if ctx.tier == "quick" else 3)
+    npr = sum(1 for x in lines if '"ev":"probe"' in x)
+    ctx.log("real cluster: %d partition-level requests to non-hosting members: %d nodes lost" % (npr, nbad))
+    if npr == 0:
+        raise vlib.NoVerdict("no partition-level probe reached the real cluster")
+    ctx.cov["real_cluster_foreign_partition_requests"] = npr
+    ctx.cov["traces_validated_against_impl"] = n + 1
     ctx.cov["classes"] = names
     ctx.assumptions += ["exploration driven by a decision-table model over %d request feature classes, not exhaustive over protobuf values" % len(names),
                         "one real single-node server process per class, with a valid dataset (dimension 3, 2 partitions) and one stored item"]
